@@ -62,9 +62,19 @@ def _simple_subject(e):
     return isinstance(e, ast.Name)
 
 
+_PURE_PREDICATES = ("isinstance", "issubclass", "callable", "hasattr", "len", "bool", "type", "id")
+
+
 def _call_free(e):
     for sub in ast.walk(e):
-        if isinstance(sub, (ast.Call, ast.Await, ast.Yield, ast.YieldFrom, ast.NamedExpr, ast.Lambda, ast.ListComp, ast.SetComp, ast.DictComp, ast.GeneratorExp, ast.Subscript)):
+        if isinstance(sub, ast.Call):
+            # predicates of the standard library that look at their argument and nothing else
+            f = sub.func
+            if (isinstance(f, ast.Name) and f.id in _PURE_PREDICATES) or (isinstance(f, ast.Attribute) and isinstance(f.value, ast.Name) and f.value.id == "inspect" and f.attr.startswith("is")):
+                if not sub.keywords and all(isinstance(a, (ast.Name, ast.Attribute, ast.Constant)) for a in sub.args):
+                    continue
+            return False
+        if isinstance(sub, (ast.Await, ast.Yield, ast.YieldFrom, ast.NamedExpr, ast.Lambda, ast.ListComp, ast.SetComp, ast.DictComp, ast.GeneratorExp, ast.Subscript)):
             return False
     return True
 
